@@ -1597,8 +1597,25 @@ class VM:
         # main loop here would execute the rest of the program inside this call
         return self._call_callback(func, args, this_val)
 
+    def _regex_internal(self, regexp: JSRegExp):
+        """The regex engine object of a RegExp, polled against *this* evaluation.
+
+        A RegExp object can outlive the evaluation that created it (stored in
+        a global, returned from eval): its matches are stopped by the time
+        limit of the evaluation that runs them, not of the one that built it.
+        """
+        regex_internal = regexp._internal
+        if self.time_limit is not None:
+            regex_internal._poll_callback = (
+                lambda: time.monotonic() - self.start_time > self.time_limit
+            )
+        else:
+            regex_internal._poll_callback = None
+        return regex_internal
+
     def _make_regexp_method(self, re: JSRegExp, method: str) -> Any:
         """Create a bound RegExp method."""
+        self._regex_internal(re)
 
         def test_fn(*args):
             string = to_string(args[0]) if args else ""
@@ -1887,7 +1904,7 @@ class VM:
             elif isinstance(sep, JSRegExp):
                 # Split with regex using microjs.regex
                 try:
-                    regex_internal = sep._internal
+                    regex_internal = self._regex_internal(sep)
                     parts = []
                     last_end = 0
                     pos = 0
@@ -1980,7 +1997,7 @@ class VM:
             if isinstance(pattern, JSRegExp):
                 # Replace with regex using microjs.regex
                 try:
-                    regex_internal = pattern._internal
+                    regex_internal = self._regex_internal(pattern)
                     is_global = "g" in pattern._flags
                     capture_count = regex_internal._capture_count
 
@@ -2081,7 +2098,7 @@ class VM:
             from .regex import RegExp as InternalRegExp
 
             if isinstance(pattern, JSRegExp):
-                regex_internal = pattern._internal
+                regex_internal = self._regex_internal(pattern)
                 is_global = "g" in pattern._flags
             else:
                 # Convert string to regex using microjs.regex
@@ -2149,7 +2166,7 @@ class VM:
             from .regex import RegExp as InternalRegExp
 
             if isinstance(pattern, JSRegExp):
-                regex_internal = pattern._internal
+                regex_internal = self._regex_internal(pattern)
             else:
                 # Convert string to regex using microjs.regex
                 poll_callback = None
